@@ -132,7 +132,9 @@ Definition get_content (L : lib) (strict : bool) (hs : list field) (raw : option
             | Ok (VB content) => Ok (Some content)
             | Ok (VS _) => if strict then EValue else Ok (Some raw_content)
             | EValue => if strict then EValue else Ok (Some raw_content)
-            | EOther => EOther
+            (* encoding.decode wraps everything but TypeError into ValueError, so EOther is TypeError here (a str-to-str
+               codec such as rot13); since c0691f526 get_content turns it into ValueError / the raw content *)
+            | EOther => if strict then EValue else Ok (Some raw_content)
             | Missing => Missing
             end
           else Ok (Some raw_content)
@@ -147,7 +149,8 @@ Definition set_content (L : lib) (hs : list field) (value : bytes) : res (list f
         | Ok (VB raw) => Ok (hs, raw)
         | Ok (VS _) => EOther
         | EValue => match delitem hs K_CE with Some hs' => Ok (hs', value) | None => EOther end
-        | EOther => EOther
+        (* except (ValueError, TypeError) since c0691f526: a str codec such as utf8 cannot encode bytes *)
+        | EOther => match delitem hs K_CE with Some hs' => Ok (hs', value) | None => EOther end
         | Missing => Missing
         end ;;
   let '(hs, raw) := hr in
